@@ -304,7 +304,7 @@ def run(ctx):
     common.standard_proof_stage(ctx, "C08", ["Properties/C08.vo"])
 
     cases = list(corpus_cases())
-    cases += [gen_case(ctx.rng) for _ in range(ctx.n(90, 1500))]
+    cases += [gen_case(ctx.rng) for _ in range(ctx.n(90, 1000))]
     cases += [gen_case(ctx.rng, small=True) for _ in range(ctx.n(40, 300))]
     cases += [gen_malformed(ctx.rng) for _ in range(ctx.n(25, 150))]
     runs, stats, hist = [], {}, {}
@@ -389,7 +389,7 @@ def run(ctx):
         "and estimate = true residual in floating point (they need orthonormal Lanczos vectors; loss of orthogonality "
         "is outside the theorems)",
         "the which-pair theorems are in exact real arithmetic with all residual estimates finite (< inf)",
-        "max_restarts >= 0"]
+        "max_restarts >= 0; the ext theorem ritz_residual_identity of DESIGN.md is not delivered"]
 
 
 def replay(ctx, path):
